@@ -42,7 +42,8 @@ def store_conf(kind: str, root: str) -> Optional[Dict[str, Any]]:
 def build_segments(shape: Shape, hist: List[Dict[str, Any]], root: str, store_kind: str,
                    mode: str = "dds", loads_after_eval: bool = False,
                    options: Optional[Dict[str, Any]] = None,
-                   eval_kwargs: Optional[Dict[str, Any]] = None) -> List[Dict[str, Any]]:
+                   eval_kwargs: Optional[Dict[str, Any]] = None,
+                   accept: Optional[List[str]] = None) -> List[Dict[str, Any]]:
     """Cut the history into per-process segments.  Each step remembers the index of the
     history record it realises (`h`)."""
     segs: List[Dict[str, Any]] = []
@@ -67,7 +68,7 @@ def build_segments(shape: Shape, hist: List[Dict[str, Any]], root: str, store_ki
             cur = {"root_dir": root, "mode": mode, "files": files,
                    "modules": sorted(set(mods.values())),
                    "store": store_conf(store_kind, root) if mode == "dds" else None,
-                   "options": options, "steps": []}
+                   "options": options, "steps": [], "accept": accept or ["vpkg"]}
             segs.append(cur)
             cur_pid = rec["pid"]
             fail_state = {}
@@ -105,13 +106,14 @@ def _write_files(root: str, files: Optional[Dict[str, str]]) -> None:
 def replay(shape: Shape, hist: List[Dict[str, Any]], root: str, store_kind: str,
            mode: str = "dds", loads_after_eval: bool = False, pristine_env: Optional[Dict[str, Any]] = None,
            options: Optional[Dict[str, Any]] = None,
-           eval_kwargs: Optional[Dict[str, Any]] = None) -> Dict[int, Dict[str, Any]]:
+           eval_kwargs: Optional[Dict[str, Any]] = None,
+           accept: Optional[List[str]] = None) -> Dict[int, Dict[str, Any]]:
     """Returns {history index -> observation} for every eval record (plus 'loads')."""
     os.makedirs(root, exist_ok=True)
     obs: Dict[int, Dict[str, Any]] = {}
     if loads_after_eval:
         return _replay_with_loads(shape, hist, root, store_kind, mode, options, eval_kwargs)
-    segs = build_segments(shape, hist, root, store_kind, mode, False, options, eval_kwargs)
+    segs = build_segments(shape, hist, root, store_kind, mode, False, options, eval_kwargs, accept)
     for seg in segs:
         _run_one(seg, root, obs, pristine_env)
     return obs
